@@ -481,6 +481,31 @@ fn eqhash_mode(line: &str) -> String {
     guard(move || format!("{}|{}", eqhash_one::<MarkedYaml>(&a, &b), eqhash_one::<MarkedYamlOwned>(&a, &b)))
 }
 
+/// `hx_c07 eqpair`: case line = `<code points of text A>#<code points of text B>`.  Loads both texts with each of
+/// the four node types and prints, per type, `E<0|1>H<0|1>` (documents equal? hashes equal?) or SKIP.  Equality of
+/// the marked types must be the equality of the plain types: it must neither see spans that differ (eqhash) nor be
+/// satisfied by spans that coincide while the data differ.
+fn eqpair_one<'a, N: Node<'a>>(a: &'a str, b: &'a str) -> String {
+    let (Some(x), Some(y)) = (load_text::<N>(a), load_text::<N>(b)) else {
+        return "SKIP".into();
+    };
+    let eq = x == y;
+    let h = x.iter().map(hash_of).eq(y.iter().map(hash_of));
+    format!("E{}H{}", u8::from(eq), u8::from(h))
+}
+fn eqpair_mode(line: &str) -> String {
+    let Some((la, lb)) = line.split_once('#') else {
+        return "|BADCASE".into();
+    };
+    let (Some(a), Some(b)) = (decode(la), decode(lb)) else {
+        return "|BADCASE".into();
+    };
+    guard(move || {
+        [eqpair_one::<Yaml>(&a, &b), eqpair_one::<YamlOwned>(&a, &b), eqpair_one::<MarkedYaml>(&a, &b), eqpair_one::<MarkedYamlOwned>(&a, &b)]
+            .join("|")
+    })
+}
+
 // ---------------------------------------------------------------------------------------------
 // the public loading entry points
 // ---------------------------------------------------------------------------------------------
@@ -524,6 +549,7 @@ fn main() {
         let res = match mode {
             "load" => load_mode(&line),
             "eqhash" => eqhash_mode(&line),
+            "eqpair" => eqpair_mode(&line),
             "api" => api_mode(&line),
             _ => format!("|BADMODE {mode}"),
         };
